@@ -63,6 +63,8 @@ func c10Docs() (a, b []index.Document) {
 		// the last two documents are added in both orders (insertion orders 0 and 1 of this repository):
 		// one that the builder rejects for having more than TrigramMax (20000) distinct trigrams and an
 		// ordinary one that is long enough to be checked against that limit at all
+		// ASCII content under a non-ASCII name: with a small ShardMax it sits in a shard of its own
+		{Name: "héllo/needle.txt", Branches: []string{"HEAD"}, Content: []byte("plain ascii needle\n")},
 		{Name: "noisy.txt", Branches: []string{"HEAD"}, Content: c10Noisy()},
 		{Name: "plainlong.txt", Branches: []string{"HEAD"}, Content: []byte(strings.Repeat("foo plain text bar\n", 1200))},
 	}
@@ -87,6 +89,7 @@ var c10QueryStrings = []string{
 	"f:x.go", "f:é", "f:y.txt foo", "f:\\.go$ func",
 	"branch:dev foo", "branch:main", "branch:HEAD bar",
 	"lang:go", "sym:Foo", "sym:bar",
+	"needle", "f:needle", "f:needle.txt plain",
 	"wörld", "héllo", "héllo wörld", "w.rld", "foo -bar", "(package or baz)", "r:two foo", "r:alpha -f:x.go bar", "type:file foo", "xy bar",
 }
 
